@@ -97,7 +97,7 @@ def run(prop, tier, seed, known):
     rng = random.Random(seed)
     from ._tag import Fails
     fails = Fails(prop, (('textbook formula', ('C16', 'C04')), ('vmeasure != nce', ('C16',)), ('swap of reference', ('C06',)),
-                         ('label renaming', ('C08', 'C16')), ('is not symmetric', ('C06',)), ('is cut at', ('C12',)), ('out of [0, 1]', ('C01',)), ('above 1', ('C01',)),
+                         ('label renaming', ('C08', 'C16')), ('is not symmetric', ('C06',)), ('is cut at', ('C12',)), ('is cut at ', ('C12',)), ('cut at [', ('C12',)), ('out of [0, 1]', ('C01',)), ('above 1', ('C01',)),
                          ('perfect score', ('C02', 'C16'))))
     n = 0
     t0 = time.time()
@@ -188,6 +188,38 @@ def run(prop, tier, seed, known):
                     fails.append('swap of reference and estimate is not symmetric when one side is all singletons: %s vs %s' % (ga, gb))
             if len(fails) > 6:
                 break
+        # C12 on a decimal grid (boundaries that are not binary fractions): a 30 s annotation, frame size 0.1, cut at random multiples of 0.1.
+        # The number of frames, and with it every score, must not depend on how the time is cut up.
+        ndec = 0
+        base_iv = [[0.0, 12.3], [12.3, 21.7], [21.7, 30.0]]
+        base_lb = ['a', 'b', 'a']
+        est_iv = [[0.0, 7.1], [7.1, 19.9], [19.9, 30.0]]
+        est_lb = ['x', 'y', 'z']
+        g0 = metrics(base_iv, base_lb, est_iv, est_lb, 0.1, 1.0)
+        for it in range(60 if tier == 'quick' else 600):
+            def refine(iv, lb):
+                out_i, out_l = [], []
+                for (s_, e_), l in zip(iv, lb):
+                    cuts = sorted({round(rng.randint(int(round(s_ * 10)) + 1, int(round(e_ * 10)) - 1) / 10.0, 1) for _ in range(rng.randint(1, 3))})
+                    b = [s_] + cuts + [e_]
+                    out_i += [[b[i], b[i + 1]] for i in range(len(b) - 1)]
+                    out_l += [l] * (len(b) - 1)
+                return out_i, out_l
+            ri2, rl2 = refine(base_iv, base_lb)
+            ei2, el2 = refine(est_iv, est_lb)
+            for (a_i, a_l, b_i, b_l, what) in ((ri2, rl2, est_iv, est_lb, 'reference'), (base_iv, base_lb, ei2, el2, 'estimate'), (ri2, rl2, ei2, el2, 'both')):
+                ndec += 1
+                try:
+                    g = metrics(a_i, a_l, b_i, b_l, 0.1, 1.0)
+                except Exception as ex:
+                    fails.append('segment metrics raised %s when the %s is cut at %s (same labels, 0.1 s frames)' % (type(ex).__name__, what, [x[0] for x in (a_i if what != 'estimate' else b_i)][1:]))
+                    break
+                if not all(close(g0[k], g[k]) for k in g0):
+                    fails.append('scores change when the %s is cut at %s (same labels, 0.1 s frames): %s vs %s' % (what, [x[0] for x in (a_i if what != 'estimate' else b_i)][1:], g0, g))
+                    break
+            if len(fails) > 6:
+                break
+        n += ndec
     bounded = [dict(name='segment.pairwise / rand_index / ari / mutual_information / nce / vmeasure vs textbook formulas on the frame contingency table; '
                          'vmeasure == nce(marginal=True); swap, relabelling, case, cutting, ranges, perfect estimate',
                     bound='%d random labelled segmentations (<=4 segments, lattice boundaries), frame_size in {1/4, 1/2}, beta in {1/2, 1, 2}' % n,
